@@ -54,7 +54,9 @@ CHECKS = {
                      "PBKDF2 quick grid of C01, CRC32C (L<=300, sizes {0..40,63,64,65} x 16 alignments) and the complete quick tier of C02 (block, one-shot, stream)"),
         explanation="sum over all (build, run-time) pairs of the C01/C02 counters: states = raw context / stream-object states, transitions = real "
                     "Update/stream/init2 calls compared with the independent oracles; in every pair the shims must report the intended hwaccel value and "
-                    "non-zero entry counts for exactly the intended transform, otherwise the run is an engine error.",
+                    "non-zero entry counts for exactly the intended transform, otherwise the run is an engine error - unless the library's own one-vector "
+                    "self-test of the intended path, asked again through the shim, fails: the run-time fallback is then legitimate, the pair is counted "
+                    "(rt<rt>.<module>_disabled_by_selftest) and its outputs are compared with the oracles like all others.",
         assumptions=["run-time absence of a feature is emulated by forcing cpusupport_x86_*_present_1 = 0 / _init_1 = 1 before first use",
                      "the host CPU supports SHA-NI, SSSE3, SSE2, SSE4.2 and AES-NI (otherwise the path check reports an engine error)",
                      "same content/size restrictions as C01 and C02"],
@@ -70,7 +72,9 @@ CLAIMS = {
              "library's own AES-NI self-test made to fail by a transient allocation failure (fallback to software inside a process whose CPU reports AES-NI). Equality of all paths follows from equality of "
              "each with the specification. The shims verify per pair that the intended path was selected and really entered.",
         note="Trusted: as C01/C02, plus the forcing of the cpusupport globals. Not covered: ARM paths; real CPUs lacking a feature (emulated by the flags only). "
-             "A fault that makes the library's own one-vector self-test fail disables the path at run time; outside the selftest-fault configurations (where it is injected on purpose and the fallback is required) the check reports that as an engine error (path not exercised), not as a pass.",
+             "A change that makes the library's own one-vector self-test of an accelerated routine fail disables that routine at run time: the library falls back to a slower path, "
+             "selection has then changed speed only and the property holds; the harness recognises this by asking the same self-test again through the shim (counters rt<rt>.<module>_disabled_by_selftest, info selftest_fallbacks) "
+             "and still compares every output with the oracles; the changed routine itself is then not exercised. If the self-test passes and the intended path is nevertheless not selected or not entered, the run is an engine error (the forcing of the cpusupport flags did not work).",
         technique="configuration enumeration (build x run-time feature subsets) of explicit-state model checking against independent oracles",
         engine="es"),
 }
